@@ -81,7 +81,8 @@ Fixpoint bound_values (v : val) : list scalar :=
     match x with
     | VList _ [] => [SNull]
     | VList _ l => flat_map bound_values l
-    | _ => bound_values x          (* a []byte is one value, wherever it stands *)
+    | VS (SBytes b) => match s2l b with [] => [SNull] | _ => [SBytes b] end   (* a []byte is one value *)
+    | _ => bound_values x
     end in
   let named_defs := fun x : val =>
     match x with
@@ -134,7 +135,7 @@ Fixpoint bound_values (v : val) : list scalar :=
    []byte argument is made opaque (wrapped like a driver.Valuer, which no code path takes apart) *)
 Fixpoint unbytes (v : val) : val :=
   match v with
-  | VS (SBytes b) => VDrv (SBytes b)
+  | VS (SBytes b) => match s2l b with [] => v | _ => VDrv (SBytes b) end
   | VList k l => VList k (map unbytes l)
   | VNamed n x => VNamed n (unbytes x)
   | VNameSrc l => VNameSrc (map unbytes l)
@@ -186,10 +187,10 @@ Definition unbytes_fin (f : fin) : fin :=
 (* the property's domain, on the clause tree                            *)
 
 (* text that is not an argument value (identifiers, keywords, separators): no placeholder byte of
-   either dialect, and no digit in front (so that it can follow "$n") *)
+   either dialect, no '@', and no digit in front (so that it can follow "$n") *)
 Definition starts_digit (s : la) : bool := match s with c :: _ => is_digit c | [] => false end.
 Definition clean_text (s : la) : bool :=
-  negb (contains_c "$" s) && negb (contains_c "?" s) && negb (starts_digit s).
+  negb (contains_c "?" s) && negb (contains_c "$" s) && negb (contains_c "@" s) && negb (starts_digit s).
 Definition clean_str (s : string) : bool := clean_text (s2l s).
 (* a template: no '$'; no digit at the front; what follows a '?' is neither a digit nor another
    placeholder *)
@@ -218,7 +219,10 @@ Fixpoint quoted_ph (s : la) (q : option ascii) : bool :=
 Definition tinfo_ok (ti : tinfo) : bool :=
   clean_str (t_table ti) && match t_pk ti with Some p => clean_str p | None => true end.
 
-Definition is_bytes (v : val) : bool := match v with VS (SBytes _) => true | _ => false end.
+(* an empty []byte bound by an already built sub-query would be bound as NULL when the handle is
+   embedded (rv.Len() == 0 in Expr.Build): not in the domain *)
+Definition nonempty_bytes (s : scalar) : bool :=
+  match s with SBytes b => match s2l b with [] => false | _ => true end | _ => true end.
 
 Fixpoint wfb (v : val) : bool :=
   let named_arg_ok := fun x : val =>
@@ -257,7 +261,7 @@ Fixpoint wfb (v : val) : bool :=
   | VAnd l | VOr l | VNot l | VWhere l => forallb wfb l
   | VSeq sp l => clean_str sp && forallb wfb l
   | VSubN ti q _ => tinfo_ok ti && wfb q
-  | VRawSub sql vars => template sql vars
+  | VRawSub sql vars => template sql vars && forallb nonempty_bytes (bound_values (VRawSub sql vars))
   | _ => true
   end.
 
